@@ -73,8 +73,17 @@ def convert_const(name, T, ctx):
 
 def convert(t, var_names, assms, to_real, ctx):
     """Convert term t to Z3 input."""
+    # Types of the variables seen so far. Z3 constants are identified by name,
+    # so a name used at two different types cannot be translated faithfully.
+    var_types = dict()
+
+    def check_var_type(nm, T):
+        if var_types.setdefault(nm, T) != T:
+            raise Z3Exception("convert: variable %s is used at types %s and %s" % (nm, var_types[nm], T))
+
     def rec(t):
         if t.is_var():
+            check_var_type(t.name, t.T)
             z3_t = convert_const(t.name, t.T, ctx)
             if t.T == NatType and t.name not in assms:
                 assms[t.name] = z3_t >= 0
@@ -84,19 +93,34 @@ def convert(t, var_names, assms, to_real, ctx):
             var_names.append(nm)
             v = Var(nm, t.arg.var_T)
             z3_v = convert_const(nm, t.arg.var_T, ctx)
-            return z3.ForAll(z3_v, rec(t.arg.subst_bound(v)))
+            if isinstance(z3_v, z3.FuncDeclRef):
+                raise Z3Exception("convert: quantification over functions " + repr(t))
+            body = rec(t.arg.subst_bound(v))
+            if t.arg.var_T == NatType:
+                # Bound variables of type nat range over non-negative integers only
+                body = z3.Implies(z3_v >= 0, body)
+            return z3.ForAll(z3_v, body)
         elif t.is_exists():
             nm = name.get_variant_name(t.arg.var_name, var_names)
             var_names.append(nm)
             v = Var(nm, t.arg.var_T)
             z3_v = convert_const(nm, t.arg.var_T, ctx)
-            return z3.Exists(z3_v, rec(t.arg.subst_bound(v)))
+            if isinstance(z3_v, z3.FuncDeclRef):
+                raise Z3Exception("convert: quantification over functions " + repr(t))
+            body = rec(t.arg.subst_bound(v))
+            if t.arg.var_T == NatType:
+                body = z3.And(z3_v >= 0, body)
+            return z3.Exists(z3_v, body)
         elif t.is_number():
             return t.dest_number()
         elif t.is_implies():
             return z3.Implies(rec(t.arg1), rec(t.arg))
         elif t.is_equals():
-            return rec(t.arg1) == rec(t.arg)
+            lhs, rhs = rec(t.arg1), rec(t.arg)
+            if isinstance(lhs, z3.FuncDeclRef) or isinstance(rhs, z3.FuncDeclRef):
+                # == on function declarations is syntactic identity, not equality of functions
+                raise Z3Exception("convert: equality between functions or sets " + repr(t))
+            return lhs == rhs
         elif t.is_conj():
             return z3.And(rec(t.arg1), rec(t.arg)) if ctx is None else z3.And(rec(t.arg1), rec(t.arg), ctx)
         elif t.is_disj():
